@@ -21,6 +21,8 @@ class PureCheck:
     consts = ""
 
     # ---- to be provided by subclasses
+    warm_every = 0   # > 0: every k-th input is executed a second time on operands that were looked at before
+
     def design_runs(self, tier):
         return []  # list of dict(module=, cfg=, workers=, timeout=)
 
@@ -66,8 +68,20 @@ class PureCheck:
     def collect(self, tier):
         r = common.rng(self.pid)
         inputs = list(self.inputs(tier, r))
-        events = [self.execute(inp) for inp in inputs]
+        if self.warm_every:
+            # the same operation on operands that were looked at before (memo interactions): every k-th input again
+            step = self.warm_every if tier == "quick" else max(1, self.warm_every // 2)
+            inputs += [dict(inp, warm=1 + (k // step) % 15) for k, inp in enumerate(inputs) if k % step == 0]
+        events = [self._execute(inp) for inp in inputs]
         return inputs, events
+
+    def _execute(self, inp):
+        import enc
+        enc.WARM = inp.get("warm", 0) if isinstance(inp, dict) else 0
+        try:
+            return self.execute(inp)
+        finally:
+            enc.WARM = 0
 
     def run(self, tier):
         t0 = time.time()
@@ -148,7 +162,7 @@ class PureCheck:
         common.import_repo()
         self.prepare("quick")
         wd = common.workdir(self.pid + "-replay")
-        ev = self.execute(payload["input"])
+        ev = self._execute(payload["input"])
         verdicts, st = common.judge(self.module, [ev], self.pid + "-replay", consts=self.consts, jvms=1,
                                     per_item_states=self.per_item_states)
         common.cleanup(self.pid + "-replay")
